@@ -28,7 +28,7 @@ CLAIMED["C04"] = dict(level="exploration", ref="DESIGN.md 5/C04",
 
 CLAIMED["C07"] = dict(level="fault_enumeration", ref="DESIGN.md 5/C07",
     text="Crash-point enumeration: for each sampled base (problem, builder configuration, schedule, clock, hash seed) the fault-free execution is run first; the identical deterministic execution is then repeated with the injected quota flipping at poll k (quick: all k <= 32, last 8, 24 random; thorough: every k in [0, N]) or with the simulated clock jumping past maxTime at read j. Every interrupted run must return Ok with a document that passes R-part/R-feas/R-stat, report <= maxGenerations, run <= maxGenerations+1 refinement rounds and apply no insertion after a flip during construction.",
-    note="Exhaustive over the crash-point coordinate only per enumerated base; bases are sampled. Crash = cooperative cancellation (no durable state exists). Leaf tasks atomic.",
+    note="Exhaustive over the crash-point coordinate only per enumerated base; bases are sampled. Crash = cooperative cancellation (no durable state exists). Leaf tasks atomic. One case in four is a liveness case: the LKH search operator (polls no quota) on generated Euclidean lattice instances read through vrp-scientific; a case which does not return within the per-case wall-clock budget (120 s quick / 900 s thorough, cases cost milliseconds) is the violation no-return - the only use of real time, and every check runs under this watchdog.",
     tech=TECH + "crash-point enumeration over quota polls / clock reads of a deterministic re-execution; document oracles + in-run hyper-heuristic monitor")
 
 CLAIMED["C05"] = dict(level="exploration", ref="DESIGN.md 5/C05",
